@@ -243,7 +243,22 @@ def _walk(ctx, d, pgpy, U, sc):
     scratch = os.environ.get('VERIF_SCRATCH') or '/tmp'
     trace = []
     extra_objs = []
+    files = []
     sc = dict(sc)
+    try:
+        _walk_steps(ctx, d, pgpy, U, sc, r, kr, loaded, scratch, trace, extra_objs, files)
+    finally:
+        for f_ in files:
+            try:
+                os.unlink(f_)
+            except OSError:
+                pass
+    ctx.nontrivial({'walk': d['w'], 'seed': d['seed']})
+    if len(ctx.samples) < 3:
+        ctx.sample({'walk': d['w'], 'trace': trace[:12]})
+
+
+def _walk_steps(ctx, d, pgpy, U, sc, r, kr, loaded, scratch, trace, extra_objs, files):
     for step in range(d['n']):
         ctx.count('walk_steps')
         op = r.choice(['load_obj', 'load_obj', 'unload', 'unload', 'load_bin', 'load_asc', 'load_file', 'load_list', 'load_multi'])
@@ -308,13 +323,15 @@ def _walk(ctx, d, pgpy, U, sc):
             elif op == 'load_asc':
                 fps = kr.load(str(src))
             elif op == 'load_file':
-                path = os.path.join(scratch, 'kr%d_%d.asc' % (os.getpid(), step))
-                with open(path, 'w') as f:
-                    f.write(str(src))
-                try:
-                    fps = kr.load(path)
-                finally:
-                    os.unlink(path)
+                # one file per key for the whole walk (written once, never changed): the same unchanged path is loaded again after unloads
+                path = os.path.join(scratch, 'kr%d_w%d_k%d.asc' % (os.getpid(), d['w'], U.index(src)))
+                if not os.path.exists(path):
+                    with open(path, 'w') as f:
+                        f.write(str(src))
+                    files.append(path)
+                else:
+                    ctx.count('same_file_loaded_again')
+                fps = kr.load(path)
             else:
                 s2 = r.choice(U)
                 fps = kr.load([bytes(src), s2])
@@ -337,9 +354,6 @@ def _walk(ctx, d, pgpy, U, sc):
             continue
         # the model universe for "unloaded" identifiers is U (extra objects are copies of members of U)
         check_all(ctx, kr, loaded, {'walk': d['w'], 'step': step, 'trace': trace[-8:]}, sc)
-    ctx.nontrivial({'walk': d['w'], 'seed': d['seed']})
-    if len(ctx.samples) < 3:
-        ctx.sample({'walk': d['w'], 'trace': trace[:12]})
 
 
 def _select(ctx, d, pgpy, U, sc):
